@@ -116,7 +116,8 @@ def run(ctx: Ctx):
     ctx.rule = (f'exhaustive grid through the public kernpy.transpose: 7 letters x alterations -2..+2 x octaves '
                 f'{octaves.start}..{octaves.stop - 1} x 40 named intervals x 2 directions, each compared with an independent '
                 f'letter/semitone model (direction passed as literal, enum value and run-time built strings in rotation); result required whenever the exact result has <= 2 accidentals, otherwise counted '
-                f'as unspellable; inverse law wherever the forward call returned; unison, octave and P4+P5 laws on every pitch. '
+                f'as unspellable; inverse law wherever the forward call returned; unison, octave and P4+P5 laws on every pitch; octave-4 grid and tables re-checked after a phase of API misuse (unknown names, odd '
+                f'spellings). '
                 f'Non-trivial = spellable case with an interval other than P1/octave; distinct by (pitch, interval, direction).')
     ctx.assumptions = ['interval sizes follow standard theory (model/intervals.py)', 'Humdrum spelling c=C4, C=C3']
     structural(ctx, kp)
@@ -140,6 +141,36 @@ def run(ctx: Ctx):
         run_shadow(ctx, kp, owner='C09')
     except ImportError:
         pass
+    # history: after misuse of the API (unknown interval names, odd spellings, wrong directions - calls that are rejected or
+    # not) the tables and the arithmetic must be what they were
+    doc, _ = kp.loads('**kern\n*clefG2\n4c\n4e\n4g\n*-\n')
+    for args in (('p5',), ('P8',), ('foo',), ('m2', 'sideways'), ('OCTAVE',), ('M2', 'UP'), ('', 'up'), (None,), ('M2', None)):
+        ctx.mon('api_misuse_calls')
+        try:
+            doc.to_transposed(*args)
+        except Exception:
+            pass
+    for bad in (('c', 999), ('c', 'M2'), ('h', 5), ('', 5), ('c', 5, 'american')):
+        ctx.mon('api_misuse_calls')
+        try:
+            kp.transpose(*bad)
+        except Exception:
+            pass
+    structural(ctx, kp)
+    ctx.ev()
+    for name, (steps, semis) in I.INTERVALS.items():
+        el, ea, eo = I.transpose('C', 0, 4, name, True)
+        if abs(ea) <= 2:
+            got = kp.transpose('c', kp.IntervalsByName[name], direction='up')
+            if got != I.spell(el, ea, eo):
+                ctx.violation('tables-changed-by-history', f'after rejected / odd API calls c up {name} = {got!r}, expected {I.spell(el, ea, eo)!r} '
+                              f'(the shared interval table was modified)', {'pitch': 'c', 'interval': name, 'direction': 'up', 'after_misuse': True})
+    for letter in I.LETTERS:
+        for alt in (-1, 0, 1):
+            for name in I.INTERVALS:
+                for up in (True, False):
+                    one(ctx, kp, letter, alt, 4, name, up)
+    ctx.mon('post_misuse_grid_cases', 7 * 3 * 40 * 2)
 
 
 def replay(ctx, w):
